@@ -52,6 +52,10 @@ def parent_spec(position, path, u_parent, team_targets_sub=False):
         # L0 keeps the only worker busy from step 0; A0 (automatic, 2 steps) -FS-> SUB: SUB becomes READY in a step in which nobody is free
         return {"tasks": [{"name": "L0", "work": 8.0}, {"name": "A0", "work": 2.0, "auto": True}, sub], "links": [[1, 2, "FS"]], "unit_min": u_parent,
                 "teams": [{"name": "TM0", "targets": [0], "workers": [{"name": "W0", "skills": {"L0": 1.0}, "cost": 1.0}]}]}
+    if position in ("beside-same-name-auto-first", "beside-same-name-auto-last"):
+        # another automatic task that carries the same NAME as the sub-project task (IDs differ) becomes startable in the same step
+        twin = {"name": "SUB", "id": "TWIN", "work": 3.0, "auto": True}
+        return {"tasks": [twin, dict(sub, id="SUB")] if position.endswith("first") else [dict(sub, id="SUB"), twin], "links": [], "unit_min": u_parent, "teams": []}
     if position == "alone":
         tasks, links, tg = [sub], [], []
     elif position == "after-pred":
@@ -395,6 +399,10 @@ def items(tier):
             for pos in ("alone", "after-pred"):
                 out.append((max(d, 2) * 2, (), "success", True, us, up, pos, None, False, None, "reconfigure-at-pause"))
         if d == durs[-1]:
+            for dl in (101, 150, 240):  # very long sub-projects on unit ratios without a finite binary expansion (300 to 1000 parent steps: rounding may not add up)
+                for us, up in ((3, 1), (7, 1), (9, 4), (7, 3), (11, 1), (1, 1)):
+                    for pos in ("alone", "after-pred"):
+                        out.append((dl, (), "success", True, us, up, pos, None))
             for dl in (12, 25, 37):  # long sub-projects with a long calendar
                 for ab in ((), (1, 2, 3, 10, 11, 20, 21, 22, 23, 30), tuple(range(0, 40, 3))):
                     for remove in (True, False):
@@ -413,6 +421,9 @@ def items(tier):
                 out.append((d, (), "success", False, us, up, "ff-chain", None, False, None, str(nchain)))
         for us, up in ((1, 1), (3, 2), (2, 3)):
             for pos in ("alone-on-component", "after-pred-on-component", "beside-on-component", "unstaffed", "unstaffed-on-component", "after-auto-pred-beside-long", "after-auto-pred-beside-long-on-component"):
+                out.append((d, (), "success", True, us, up, pos, None))
+        for us, up in ((1, 1), (3, 2)):
+            for pos in ("beside-same-name-auto-first", "beside-same-name-auto-last"):
                 out.append((d, (), "success", True, us, up, pos, None))
         # the saved sub-project result comes from a backward run whose calendar also names steps beyond its end
         for ab in ((1,), (0, d + 9), (1, d + 3, d + 4), (d + 2,)):
